@@ -13,6 +13,12 @@ Open Scope N_scope.
    The full statement (no hypothesis on the history) is FALSE of the faithful model: C24_out_refuted.
    Outside the one listed finding it is proved for all histories. *)
 
+(* Arithmetic: the model's cursor is an unbounded N; the Go cursor is a uint32 and the alias a uint16.
+   In the code the cursor moves only when an alias is assigned, so cursor <= maximum <= 65535 at all
+   times (this is [out_set_bound] / C24_out_alias_bounded's invariant): neither the uint32 addition nor
+   the uint16 conversion can wrap, for any number of Set calls, and the model is exact without a bound
+   on the history length.  The harness' unit-level stream drives the exported table through 70 000
+   (thorough 140 000) distinct topics across the 2^16 (and 2^17) boundaries to tie this to the code. *)
 Theorem C24_out_modulo_findings : forall (max : N) (evs : list oev),
   Forall (fun e => ev_topic e <> []) evs ->          (* messages are published to non-empty topics *)
   out_kf_free (oinit max) evs = true ->              (* no instance of KF_C24_binding_dropped *)
